@@ -9,12 +9,14 @@ cd "$wt" || exit 2
 git diff --quiet -- pyrex && { echo "worktree has no change applied"; git apply _seed/patch.diff || exit 2; }
 tests=$(/venv/bin/python -m pytest -q -p no:cacheprovider tests 2>&1 | tail -1)
 PYTHONPATH="$wt" /venv/bin/python _seed/demo.py >/dev/null 2>&1; with=$?
-git stash -q
-PYTHONPATH="$wt" /venv/bin/python _seed/demo.py >/dev/null 2>&1; without=$?
-git stash pop -q
-echo "SEED $sid tests: $tests | demo exit with change: $with | without: $without"
 dest=/verif/seeded/$sid; mkdir -p "$dest"
-git diff -- pyrex > "$dest/patch.diff"; cp _seed/demo.py "$dest/demo.py"; cp _seed/meta.json "$dest/meta.agent.json" 2>/dev/null
+# (no git stash: the stash is shared by all worktrees of a repository)
+git diff -- pyrex > "$dest/patch.diff"
+git apply -R "$dest/patch.diff" || { echo "cannot revert"; exit 2; }
+PYTHONPATH="$wt" /venv/bin/python _seed/demo.py >/dev/null 2>&1; without=$?
+git apply "$dest/patch.diff"
+echo "SEED $sid tests: $tests | demo exit with change: $with | without: $without"
+cp _seed/demo.py "$dest/demo.py"; cp _seed/meta.json "$dest/meta.agent.json" 2>/dev/null
 cd /repo || exit 2
 if [ -n "$(git status --porcelain -- pyrex)" ]; then echo "repo not clean"; exit 2; fi
 git apply "$dest/patch.diff" || { echo "patch does not apply to /repo"; exit 2; }
